@@ -7,7 +7,7 @@ use std::os::raw::{c_int, c_void};
 use std::time::Duration;
 use tokio::io::{AsyncReadExt, AsyncWriteExt};
 
-fn unhex(s: &str) -> Option<Vec<u8>> {
+pub(crate) fn unhex(s: &str) -> Option<Vec<u8>> {
     if s == "-" {
         return Some(vec![]);
     }
@@ -26,7 +26,7 @@ fn ip_text(a: &std::net::IpAddr) -> String {
 
 /// canonical text of the filter object behind the opaque pointer, as converted for the server
 /// (`From<&AddressFilter> for rodbus::server::AddressFilter`)
-unsafe fn filter_text(f: *mut rodbus_ffi::AddressFilter) -> String {
+pub(crate) unsafe fn filter_text(f: *mut rodbus_ffi::AddressFilter) -> String {
     let conv: rodbus::server::AddressFilter = (&*f).into();
     match conv {
         rodbus::server::AddressFilter::Any => "any".into(),
@@ -47,7 +47,7 @@ unsafe fn filter_text(f: *mut rodbus_ffi::AddressFilter) -> String {
 }
 
 /// `any` or the hex of the string handed to `rodbus_address_filter_create`
-unsafe fn make_filter(tok: &str) -> Result<*mut rodbus_ffi::AddressFilter, String> {
+pub(crate) unsafe fn make_filter(tok: &str) -> Result<*mut rodbus_ffi::AddressFilter, String> {
     if tok == "any" {
         return Ok(ffi::rodbus_address_filter_any());
     }
